@@ -208,6 +208,7 @@ PROPS = {
     "C16": {
         "units": ["policy"],
         "kani": {"quick": [], "thorough": []},
+        "native_cex": "c16_policy_sort_replay",
         "level": "proof",
         "level_text": "Deductive proof (Verus) on the real Policy::sort / Policy::sorted (recursive, through Arc::make_mut and the Vec of threshold children): "
                       "the result is canonical at EVERY depth (and/or children ordered, threshold children sorted, recursively) and an already canonical policy is "
